@@ -173,7 +173,7 @@ func buildStack(rng *prng.R, reg *memreg.Registry, repo string, o oc.Opts) (*bui
 	bs.im = im
 	bs.oci = oc.ApplyOCI(st.Tars())
 	f := st.Features
-	bs.effect = f["whiteout-existing"]+f["opaque-existing"]+f["replace-file-file"]+f["replace-dir-file"]+f["replace-file-dir"] > 0
+	bs.effect = f["whiteout-existing"]+f["real-0/0-chardev-hides-lower"]+f["opaque-existing"]+f["replace-file-file"]+f["replace-dir-file"]+f["replace-file-dir"] > 0
 	bs.hash = fmt.Sprintf("%016x", prng.Hash64(hs...))
 	return bs, nil
 }
@@ -391,13 +391,29 @@ func captureLayer(r *vf.Run, rng *prng.R, l layer.Layer, bs *builtStack, i int, 
 		view.Kids = map[string]*oc.Node{}
 		view.AttrUnknown = true // the generator never writes a root entry
 		c.inoPaths[ga.Ino] = append(c.inoPaths[ga.Ino], "")
+		// clause 5: the state file is read before the walk (which reads every file and so
+		// makes the fetched size grow) in two of three captures; one reply of that first
+		// visit is kept un-extracted across the walk (5a); in half of those captures
+		// concurrent readers and a stat loop run during the walk (5b).
 		var s1 stateReport
-		stateFirst := rng.Bool()
+		stateFirst := rng.Intn(3) > 0
+		var held *heldRead
+		stopReaders := func() {}
 		if stateFirst {
 			s1 = c.judgeState(rootV, l, wantDigest, wantSize)
+			if s1.ok && s1.sf != nil {
+				held = c.holdStateRead(s1.sf, l)
+				if rng.Bool() {
+					stopReaders = c.concurrentState(s1.sf, wantDigest, wantSize)
+				}
+			}
 		}
 		c.opaqueOf(rootV, "", view)
-		c.visitDir(rootV, "", view, 0)
+		func() {
+			defer stopReaders()
+			c.visitDir(rootV, "", view, 0)
+		}()
+		c.judgeHeld(held, l, wantDigest, wantSize)
 		s2 := c.judgeState(rootV, l, wantDigest, wantSize)
 		if stateFirst && s1.ok && s2.ok {
 			if s1.stateIno != s2.stateIno || s1.statFileIno != s2.statFileIno {
